@@ -237,6 +237,11 @@ func (ef *Effects) follow(g ssa.Value, v ssa.Value, seen map[ssa.Value]bool, add
 			}
 			// the alias is stored somewhere: local cell -> follow its loads; anything else escapes
 			if a, ok := x.Addr.(*ssa.Alloc); ok {
+				if _, isStruct := x.Val.Type().Underlying().(*types.Struct); isStruct {
+					// a struct value holding the alias copied into a local: fields are read back from it
+					ef.followCell(g, a, seen, addWrite, depth+1)
+					continue
+				}
 				for _, ar := range *a.Referrers() {
 					if ld, ok := ar.(*ssa.UnOp); ok && ld.Op == token.MUL {
 						ef.follow(g, ld, seen, addWrite, depth+1)
@@ -246,6 +251,14 @@ func (ef *Effects) follow(g ssa.Value, v ssa.Value, seen map[ssa.Value]bool, add
 					}
 				}
 				continue
+			}
+			if fa, ok := x.Addr.(*ssa.FieldAddr); ok {
+				if a, ok := fa.X.(*ssa.Alloc); ok {
+					// a field of a local struct (an `encoder{words: list, …}` carried between helper
+					// steps): whatever is read back out of that struct may alias g
+					ef.followCell(g, a, seen, addWrite, depth+1)
+					continue
+				}
 			}
 			if ia, ok := x.Addr.(*ssa.IndexAddr); ok {
 				if g2, ok := ia.X.(*ssa.Global); ok && p.InModule(g2.Pkg) {
@@ -466,6 +479,70 @@ func (ef *Effects) followCall(g ssa.Value, c ssa.CallInstruction, v ssa.Value, s
 	}
 	// unknown callee: it may write what it is given
 	addWrite(g, c, "referent", "passed to "+name+", which may modify it")
+}
+
+// followCell: cell points to a local struct one of whose fields holds an alias of memory
+// reached through g (field-insensitive: every mutable thing read out of the struct is followed).
+func (ef *Effects) followCell(g ssa.Value, cell ssa.Value, seen map[ssa.Value]bool, addWrite func(ssa.Value, ssa.Instruction, string, string), depth int) {
+	if seen[cell] || depth > 12 {
+		return
+	}
+	seen[cell] = true
+	p := ef.P
+	refs := cell.Referrers()
+	if refs == nil {
+		return
+	}
+	for _, r := range *refs {
+		switch x := r.(type) {
+		case *ssa.DebugRef:
+		case *ssa.FieldAddr:
+			for _, rr := range *x.Referrers() {
+				switch y := rr.(type) {
+				case *ssa.UnOp:
+					if y.Op == token.MUL && mutableType(y.Type()) {
+						ef.follow(g, y, seen, addWrite, depth+1)
+					}
+				case *ssa.Store, *ssa.DebugRef:
+				default:
+					ef.Escapes[g] = append(ef.Escapes[g], fmt.Sprintf("address of a field of a struct holding it used by %T at %s", rr, p.InstrPos(rr)))
+				}
+			}
+		case *ssa.UnOp:
+			if x.Op == token.MUL {
+				ef.follow(g, x, seen, addWrite, depth+1)
+			}
+		case *ssa.Store:
+			if x.Addr != cell {
+				ef.Escapes[g] = append(ef.Escapes[g], "pointer to a struct holding it stored at "+p.InstrPos(x))
+			}
+		case *ssa.MakeClosure:
+			ef.followClosure(g, x, cell, seen, addWrite, depth+1)
+		case ssa.CallInstruction:
+			cc := x.Common()
+			callee := cc.StaticCallee()
+			handled := false
+			if callee != nil && len(callee.Blocks) > 0 {
+				pk := callee.Pkg
+				if pk == nil && callee.Parent() != nil {
+					pk = callee.Parent().Pkg
+				}
+				if pk != nil && p.InModule(pk) {
+					for i, a := range cc.Args {
+						if a == cell && i < len(callee.Params) {
+							ef.followCell(g, callee.Params[i], seen, addWrite, depth+1)
+							handled = true
+						}
+					}
+				}
+			}
+			if !handled {
+				ef.Escapes[g] = append(ef.Escapes[g], "pointer to a struct holding it passed to a call at "+p.InstrPos(x))
+			}
+		default:
+			ef.Escapes[g] = append(ef.Escapes[g], fmt.Sprintf("pointer to a struct holding it used by %T at %s", r, p.InstrPos(r)))
+		}
+	}
 }
 
 // followTable: memory reached through g was stored into an element of package-level table t;
